@@ -2,7 +2,7 @@ import TonicModel.Model.WebClient
 import TonicModel.Spec.GrpcWeb
 import TonicModel.Lemmas.WebClient
 /-
-`decode_trailers_frame` (after fix f9e3e878) on ARBITRARY trailer blocks: when it succeeds, the
+`decode_trailers_frame` (after fix 1bfb22e3) on ARBITRARY trailer blocks: when it succeeds, the
 map it returns lists every line of the block — CRLF-separated, the last one possibly without its
 CRLF — with the name in lower case and the value byte for byte except the one optional space
 after the colon (`Spec.GrpcWeb.readBlockLoose` / `exactPairs`).  Nothing is dropped silently.
